@@ -1,9 +1,6 @@
 //! Support for deflated image frame compression via pixel data adapter.
 
-use dicom_core::{
-    PrimitiveValue, Tag,
-    ops::{AttributeAction, AttributeOp},
-};
+use dicom_core::ops::AttributeOp;
 use dicom_encoding::{
     adapters::{
         DecodeResult, EncodeOptions, EncodeResult, PixelDataObject, PixelDataReader,
@@ -107,7 +104,6 @@ impl PixelDataWriter for DeflatedImageFrameAdapter {
             .get(frame_size * frame as usize..frame_size * (frame as usize + 1))
             .whatever_context("Frame index out of bounds")?;
 
-        let len_before = dst.len();
 
         // Deflate the data to the output
         let compression = match options.effort {
@@ -129,15 +125,9 @@ impl PixelDataWriter for DeflatedImageFrameAdapter {
             dst.push(0);
         }
 
-        let fragment_len = dst.len() - len_before;
-
         // provide attribute changes
-        Ok(vec![
-            // Encapsulated Pixel Data Value Total Length
-            AttributeOp::new(
-                Tag(0x7FE0, 0x0003),
-                AttributeAction::Set(PrimitiveValue::from(fragment_len as u64)),
-            ),
-        ])
+        // (the Encapsulated Pixel Data Value Total Length
+        // covers all frames and is provided by the caller)
+        Ok(vec![])
     }
 }
